@@ -147,10 +147,22 @@ class Ctx:
         return [x for x in self.obligation_failures
                 if x[0] in deps or x[0] in ("translator", "make", "extraction") or x[0].startswith("gen/")]
 
+    def harness_dir(self):
+        """the harness module; when another source tree than /repo is checked (VERIF_REPO) a copy whose go.mod points there"""
+        hdir = os.path.join(VERIF, "harness")
+        if REPO != "/repo":
+            cp = os.path.join(self.tmp, "harness_src")
+            if not os.path.exists(cp):
+                shutil.copytree(hdir, cp)
+                gm = open(os.path.join(cp, "go.mod")).read().replace("=> /repo", "=> " + REPO)
+                open(os.path.join(cp, "go.mod"), "w").write(gm)
+            hdir = cp
+        shutil.copy(os.path.join(REPO, "go.sum"), os.path.join(hdir, "go.sum"))
+        return hdir
+
     def build_harness(self):
         out = os.path.join(self.tmp, "mpbh")
-        hdir = os.path.join(VERIF, "harness")
-        shutil.copy(os.path.join(REPO, "go.sum"), os.path.join(hdir, "go.sum"))
+        hdir = self.harness_dir()
         cmd = ["go", "build", "-tags", "verif", "-o", out, "./cmd/mpbh"]
         rc, o = sh(cmd, cwd=hdir, env=GOENV, timeout=900)
         if rc != 0:
@@ -162,7 +174,7 @@ class Ctx:
     def build_harness_race(self):
         """the same harness under the Go race detector"""
         out = os.path.join(self.tmp, "mpbh_race")
-        hdir = os.path.join(VERIF, "harness")
+        hdir = self.harness_dir()
         cmd = ["go", "build", "-race", "-tags", "verif", "-o", out, "./cmd/mpbh"]
         rc, o = sh(cmd, cwd=hdir, env=dict(GOENV, CGO_ENABLED="1"), timeout=900)
         if rc != 0:
